@@ -10,8 +10,8 @@
 (* form: equality of field elements is equality of TLA+ values; zero is    *)
 (* the empty function).  Multiplication of basis elements:                 *)
 (*      sqrt S * sqrt T = prod(S \cap T) * sqrt(S symdiff T).              *)
-(* MQSqrt(n) is DEFINED by its property (the s, S with s^2 prod(S) = n),   *)
-(* not by a table; MQLaws is model-checked by spec/gen/BoseMapGen.tla.     *)
+(* MQSqrt(n) = s sqrt(prod S) for THE pair (s, S) with s^2 prod(S) = n     *)
+(* (MQSqrtUnique); MQLaws is model-checked by spec/gen/BoseMapGen.tla.     *)
 (***************************************************************************)
 EXTENDS Rat, FiniteSets, TLC
 
@@ -49,16 +49,32 @@ MQPairSum(x, y, P) ==
   IF P = {} THEN RZero
   ELSE LET pr == CHOOSE q \in P : TRUE IN
        RAdd(RMul(RMul(x[pr[1]], y[pr[2]]), RInt(MQSetProd(pr[1] \cap pr[2]))), MQPairSum(x, y, P \ {pr}))
-MQMul(x, y) ==
+MQMulGen(x, y) ==
+  LET pairs == (DOMAIN x) \X (DOMAIN y)
+      targets == {MQSymD(pr[1], pr[2]) : pr \in pairs} IN
+  MQNorm([U \in targets |-> MQPairSum(x, y, {pr \in pairs : MQSymD(pr[1], pr[2]) = U})])
+MQMul(xx, yy) == MQBind2(xx, yy, LAMBDA x, y :
   IF DOMAIN x = {} \/ DOMAIN y = {} THEN MQZero
-  ELSE LET pairs == (DOMAIN x) \X (DOMAIN y)
-           targets == {MQSymD(pr[1], pr[2]) : pr \in pairs} IN
-       MQNorm([U \in targets |-> MQPairSum(x, y, {pr \in pairs : MQSymD(pr[1], pr[2]) = U})])
+  ELSE IF Cardinality(DOMAIN x) = 1 /\ Cardinality(DOMAIN y) = 1        \* monomials (the common case): one basis product
+  THEN LET S == CHOOSE U \in DOMAIN x : TRUE  T == CHOOSE U \in DOMAIN y : TRUE IN
+       [U \in {MQSymD(S, T)} |-> RMul(RMul(x[S], y[T]), RInt(MQSetProd(S \cap T)))]
+  ELSE MQMulGen(x, y))
 
 \* the non-negative square root of an integer n >= 0 whose square-free part has its primes in {2,3,5,7}
-MQHasSqrt(n) == n = 0 \/ \E q \in (1..n) \X MQBasis : q[1] * q[1] * MQSetProd(q[2]) = n
-MQSqrt(n) == IF n = 0 THEN MQZero
-             ELSE LET pr == CHOOSE q \in (1..n) \X MQBasis : q[1] * q[1] * MQSetProd(q[2]) = n IN MQMono(RInt(pr[1]), pr[2])
+\* n = s^2 prod(S): S holds the primes of odd multiplicity, s the product of p^(multiplicity div 2)
+RECURSIVE MQMult(_, _)
+MQMult(p, n) == IF n % p = 0 THEN 1 + MQMult(p, n \div p) ELSE 0                  \* n >= 1
+MQOddPart(n) == {p \in MQPrimes : MQMult(p, n) % 2 = 1}
+RECURSIVE MQPow(_, _)
+MQPow(b, e) == IF e = 0 THEN 1 ELSE b * MQPow(b, e - 1)
+MQSquarePart(n) == MQPow(2, MQMult(2, n) \div 2) * MQPow(3, MQMult(3, n) \div 2) * MQPow(5, MQMult(5, n) \div 2) * MQPow(7, MQMult(7, n) \div 2)
+MQHasSqrt(n) == n = 0 \/ MQSquarePart(n) * MQSquarePart(n) * MQSetProd(MQOddPart(n)) = n
+MQSqrtDef(n) == IF n = 0 THEN MQZero ELSE MQMono(RInt(MQSquarePart(n)), MQOddPart(n))
+\* the defining property, checked by MQLaws: (s, S) is THE pair with s^2 prod(S) = n
+MQSqrtUnique(n) == n = 0 \/ \A q \in (1..n) \X MQBasis :
+                      q[1] * q[1] * MQSetProd(q[2]) = n <=> (q[1] = MQSquarePart(n) /\ q[2] = MQOddPart(n))
+MQSqrtTable == TLCEval([n \in 0..100 |-> IF MQHasSqrt(n) THEN MQSqrtDef(n) ELSE MQZero])
+MQSqrt(n) == IF n <= 100 THEN MQSqrtTable[n] ELSE MQSqrtDef(n)
 
 \* printing: the terms in basis order, [m |-> mask of S, n, d]; value = sum (n/d) sqrt(prod S)
 RECURSIVE MQMaskSeq(_)
@@ -85,7 +101,7 @@ MQMatZero(n) == [i \in 1..n |-> [j \in 1..n |-> MQZero]]
 MQSample == {MQZero, MQOne, MQSqrt(2), MQSqrt(6), MQAdd(MQSqrt(3), MQInt(-2)), MQAdd(MQSqrt(8), MQSqrt(5)),
              MQScale(<<-1, 2>>, MQSqrt(7)), MQAdd(MQAdd(MQSqrt(2), MQSqrt(3)), MQSqrt(6))}
 MQLaws(B) ==
-  /\ \A n \in 0..B : MQHasSqrt(n) => /\ IsMQ(MQSqrt(n))
+  /\ \A n \in 0..B : MQHasSqrt(n) => /\ IsMQ(MQSqrt(n)) /\ MQSqrtUnique(n)
                                      /\ MQMul(MQSqrt(n), MQSqrt(n)) = MQInt(n)
   /\ \A a \in 1..B, b \in 1..B : (MQHasSqrt(a) /\ MQHasSqrt(b)) => MQMul(MQSqrt(a), MQSqrt(b)) = MQSqrt(a * b)
   /\ \A x \in MQSample, y \in MQSample : /\ IsMQ(MQMul(x, y)) /\ IsMQ(MQAdd(x, y))
